@@ -94,6 +94,9 @@ func (r *Run) load(p Ptr, t types.Type) Value {
 	if a, ok := v.(*Agg); ok {
 		return r.cloneAgg(a)
 	}
+	if lz, ok := v.(*LazyStr); ok {
+		return lz.force(r)
+	}
 	return v
 }
 
@@ -139,19 +142,15 @@ func (r *Run) store(p Ptr, v Value, t types.Type) {
 // loadSym reads A[SI] for scalar elements as an ite chain.
 func (r *Run) loadSym(p Ptr) Value {
 	es := r.rd(p.A)
-	var res *smt.Term
-	for j := p.N - 1; j >= p.I; j-- {
+	elems := make([]*smt.Term, 0, p.N-p.I)
+	for j := p.I; j < p.N; j++ {
 		e, ok := es[j].(*smt.Term)
 		if !ok {
 			panic(unsupported("symbolic index into non-scalar array"))
 		}
-		if res == nil {
-			res = e
-		} else {
-			res = r.B.Ite(r.B.Eq(p.SI, smt.Const(p.SI.W, uint64(j))), e, res)
-		}
+		elems = append(elems, e)
 	}
-	return res
+	return r.selectChain(elems, r.B.Sub(p.SI, smt.Const(p.SI.W, uint64(p.I))))
 }
 
 func (r *Run) storeSym(p Ptr, v Value) {
